@@ -228,7 +228,10 @@ template<int DD> void history_t(Case& c) {
 			case 18: { if(!A.a || !B.a || a == b || D < 2 || B.m.n() == 0) break; c06 = true; opk = "assign(first,last)(rows)"; d << opk << "(" << a << "<-rows of " << b << ")"; cur_op = d.str(); op(opk); softcfg().opk = opk; if constexpr(DD >= 2) { A.a->assign(B.a->begin(), B.a->end()); } A.m = B.m; A.m.base_known = false; break; }
 			case 19: { if(!A.a || A.m.n() == 0) break; opk = "element-write"; L k = g.below(A.m.n()); long id = next_id++; d << opk << "(" << a << ",#" << k << ")"; cur_op = d.str(); op(opk); softcfg().opk = opk;
 				if constexpr(DD == 0) { *A.a->data_elements() = mk(id); } else { std::vector<L> ix; MV::root(A.m.ext).unlin(k, ix); { std::vector<L> fs; std::apply([&](auto const&... x) { (fs.push_back(L(x.first())), ...); }, A.a->extensions().base()); for(std::size_t q = 0; q < ix.size(); ++q) ix[q] += (A.m.base_known ? A.m.base[q] : fs[q]); } brk(*A.a, ix) = mk(id); } A.m.ids[std::size_t(k)] = id; break; }
-			case 20: { if(!B.a || a == b) break; opk = "decay(+)"; d << opk << "(" << a << "<-+" << b << ")"; cur_op = d.str(); op(opk); softcfg().opk = opk; A.a.reset(); { int form = int(g.below(4));
+			case 20: { if(!B.a || a == b) break; opk = "decay(+)"; d << opk << "(" << a << "<-+" << b << ")"; cur_op = d.str(); op(opk); softcfg().opk = opk; A.a.reset();
+				if(B.m.n() > 0) { auto&& kept = +*B.a; static_assert(!std::is_reference_v<decltype(+*B.a)>, "unary plus yields a new array by value");  // bound by reference: the result is a NEW array, not the operand
+					if(static_cast<void const*>(kept.data_elements()) == static_cast<void const*>(B.a->data_elements())) V("C04:decay(+):aliases-its-operand", "+A bound to a reference designates A's own storage: unary plus did not make a copy"); count("decay(+):kept-by-reference"); }
+				{ int form = int(g.below(4));
 #if !(H_T == 2 && H_D == 1)  // (+ of a const array<string,1> brace-initialises its result: the initializer_list constructor is tried and it does not compile on the pinned tree)
 				if(form == 3) { A.a.emplace(+std::as_const(*B.a)); count("decay(+const)"); }
 #endif
